@@ -118,7 +118,18 @@ def replay(doc):
     cmod = importlib.import_module(doc['contract_module'])
     C = getattr(cmod, doc['contract'])
     env = {}
-    args = {k: build(v, env, ghost_fn) for k, v in doc['args'].items()}
+    pending = dict(doc['args'])
+    built = {}
+    for _ in range(len(pending) + 1):          # a '$ref' may point at an argument built later
+        for k in list(pending):
+            try:
+                built[k] = build(pending[k], env, ghost_fn)
+                del pending[k]
+            except KeyError:
+                pass
+    if pending:
+        raise KeyError(f'unresolved $ref in arguments {sorted(pending)}')
+    args = {k: built[k] for k in doc['args']}
     out = {'contract': doc['contract'], 'obligation': doc.get('obligation'), 'inputs': {k: show(v) for k, v in args.items()}}
 
     def spec(fname, extra=None):
